@@ -37,6 +37,13 @@ def main():
         return common.finish(rep)
     scns = scenrun.enumerate_scenarios(rep, "MC_XUnseen", unseen.cfg(rep.tier, "RelC04"), f"c04_{rep.tier}")
     findings = scenrun.evaluate(rep, scns, unseen.evaluate, procs=a.procs, chunksize=8)
+    # every input structure of XPreproc (reduced constants): transform(training data) == scores
+    from . import c02 as _c02
+    lay_cfg = ["SPECIFICATION Spec", "CONSTANTS", " LKinds <- KQ", " NSs <- N12", " NFs <- N12", " Orders <- OQ",
+               f" IKindsMain <- {'IAll' if rep.tier == 'thorough' else 'IRestQ'}", " IKindsRest <- IInt", " NameChoices <- NQ", " Flags <- FlQ", " Faults <- NoFault",
+               "INVARIANT C02_OutputDims", "INVARIANT C02_Shape", "INVARIANT Emit", "CHECK_DEADLOCK FALSE"]
+    lays = [s_ for s_ in scenrun.enumerate_scenarios(rep, "MC_XPreproc", lay_cfg, f"c04lay_{rep.tier}") if s_["lay"]["kind"] != "DS2diff" and not s_["lay"]["shuffle"]]
+    findings += scenrun.evaluate(rep, lays, _c02.evaluate, procs=a.procs)
     scenrun.report(rep, findings, TAGS)
     lifecycle_part(rep, a, TAGS, QUICK, THOROUGH, DEVS, quick_paths=16)
     rep.exhaustive = True
